@@ -495,9 +495,11 @@ LIGHT = [k for k, v in R.items() if not v['heavy']]
 HEAVY = [k for k, v in R.items() if v['heavy']]
 
 
-def evaluate(nq, spec, seeded=True, ctx=None):
+def evaluate(nq, spec, seeded=True, ctx=None, seed_type='int'):
     e = R[spec['fn']]
     s = int(spec['seed']) if seeded else None
+    if s is not None and seed_type != 'int' and not e['heavy']:
+        s = {'np.int64': np.int64, 'np.uint64': np.uint64}[seed_type](s)  # the same integer in another integer type
     if e['heavy']:
         return e['call'](nq, spec['args'], s, ctx)
     return e['call'](nq, spec['args'], s)
